@@ -123,8 +123,11 @@ func init() {
 			subs = []string{"ro", "mut", "range", "rorange", "range", "rorange", "loaded", "iterobj", "badrange"}
 		}
 		st := Step{Op: "iter", C: c.CID, Sub: subs[g.R.Intn(len(subs))]}
+		if st.Sub == "iterobj" {
+			st.N = g.R.Intn(8)
+		}
 		switch st.Sub {
-		case "range", "rorange":
+		case "range", "rorange", "iterobj":
 			// boundary-biased bounds
 			a, b := uint64(g.R.Intn(int(n)+1)), uint64(g.R.Intn(int(n)+1))
 			if a > b {
@@ -209,12 +212,50 @@ func (w *World) iterArray(st *Step, c *MCont, a *atree.Array) *Violation {
 			return w.expectSubsequence(what, got, want)
 		}
 	case "iterobj":
-		it, e := a.ReadOnlyIterator()
-		if e != nil {
-			return w.viol("iter.error", "%s: %v", what, e)
+		// iterator objects: every constructor (st.N picks one), drained with Next
+		s, e := st.Pos, st.End
+		if s > n {
+			s = n
 		}
-		if it.CanMutate() {
-			return w.viol("iter.flavour", "%s: read-only iterator reports CanMutate", what)
+		if e > n {
+			e = n
+		}
+		if s > e {
+			s, e = e, s
+		}
+		var it atree.ArrayIterator
+		var e0 error
+		wantMut, loaded := false, false
+		switch st.N % 8 {
+		case 0:
+			it, e0 = a.ReadOnlyIterator()
+		case 1:
+			it, e0 = a.Iterator()
+			wantMut = true
+		case 2:
+			it, e0 = a.RangeIterator(s, e)
+			want = c.Elems[s:e]
+			wantMut = true
+		case 3:
+			it, e0 = a.ReadOnlyRangeIterator(s, e)
+			want = c.Elems[s:e]
+		case 4:
+			it, e0 = a.ReadOnlyLoadedValueIterator()
+			loaded = true
+		case 5:
+			it, e0 = a.ReadOnlyIteratorWithMutationCallback(func(atree.Value) {})
+		case 6:
+			it, e0 = a.ReadOnlyRangeIteratorWithMutationCallback(s, e, func(atree.Value) {})
+			want = c.Elems[s:e]
+		default:
+			it, e0 = a.ReadOnlyRangeIterator(0, n)
+		}
+		w.Stats.Inc(fmt.Sprintf("iter.obj.array.%d", st.N%8))
+		if e0 != nil {
+			return w.viol("iter.error", "%s (constructor %d): %v", what, st.N%8, e0)
+		}
+		if it.CanMutate() != wantMut {
+			return w.viol("iter.flavour", "%s (constructor %d): CanMutate=%v, want %v", what, st.N%8, it.CanMutate(), wantMut)
 		}
 		for {
 			v, e := it.Next()
@@ -226,6 +267,18 @@ func (w *World) iterArray(st *Step, c *MCont, a *atree.Array) *Violation {
 				break
 			}
 			got = append(got, v)
+			if len(got) > len(c.Elems)+1 {
+				return w.viol("iter.count", "%s (constructor %d) yields more than %d elements", what, st.N%8, len(c.Elems))
+			}
+		}
+		if err == nil {
+			// an exhausted iterator stays exhausted
+			if v, e := it.Next(); e != nil || v != nil {
+				return w.viol("iter.count", "%s (constructor %d): Next after the end returned (%v, %v)", what, st.N%8, v, e)
+			}
+		}
+		if err == nil && loaded {
+			return w.expectSubsequence(what, got, want)
 		}
 	case "range", "rorange":
 		s, e := st.Pos, st.End
@@ -342,15 +395,57 @@ func (w *World) iterMap(st *Step, c *MCont, m *atree.OrderedMap) *Violation {
 			return nil
 		}
 	case "iterobj":
-		it, e := m.ReadOnlyIterator()
-		if e != nil {
-			return w.viol("iter.error", "%s: %v", what, e)
+		// iterator objects: both constructors plus the loaded-value iterator, drained with Next / NextKey /
+		// NextValue or a rotation of the three (every call consumes exactly one element)
+		var it atree.MapIterator
+		var e0 error
+		wantMut, loaded := false, false
+		switch st.N % 8 {
+		case 0, 2, 3:
+			it, e0 = m.ReadOnlyIterator()
+		case 1, 4, 5:
+			it, e0 = m.Iterator(w.cmp, w.hip)
+			wantMut = true
+		case 6:
+			it, e0 = m.ReadOnlyLoadedValueIterator()
+			loaded = true
+		default:
+			it, e0 = m.ReadOnlyIteratorWithMutationCallback(func(atree.Value) {}, func(atree.Value) {})
 		}
-		if it.CanMutate() {
-			return w.viol("iter.flavour", "%s: read-only iterator reports CanMutate", what)
+		w.Stats.Inc(fmt.Sprintf("iter.obj.map.%d", st.N%8))
+		if e0 != nil {
+			return w.viol("iter.error", "%s (constructor %d): %v", what, st.N%8, e0)
 		}
-		for {
-			k, v, e := it.Next()
+		if it.CanMutate() != wantMut {
+			return w.viol("iter.flavour", "%s (constructor %d): CanMutate=%v, want %v", what, st.N%8, it.CanMutate(), wantMut)
+		}
+		// per element: which accessor (0 Next, 1 NextKey, 2 NextValue)
+		mode := func(i int) int {
+			switch st.N % 8 {
+			case 2, 4:
+				return 1
+			case 3, 5:
+				return 2
+			case 6, 7:
+				return i % 3
+			}
+			return 0
+		}
+		var seq []atree.Value // what was returned, element by element
+		var modes []int
+		for i := 0; ; i++ {
+			var k, v atree.Value
+			var e error
+			md := mode(i)
+			switch md {
+			case 0:
+				k, v, e = it.Next()
+			case 1:
+				k, e = it.NextKey()
+			default:
+				v, e = it.NextValue()
+				k = v
+			}
 			if e != nil {
 				err = e
 				break
@@ -358,9 +453,60 @@ func (w *World) iterMap(st *Step, c *MCont, m *atree.OrderedMap) *Violation {
 			if k == nil {
 				break
 			}
-			keys = append(keys, k)
-			vals = append(vals, v)
+			if md == 0 && v == nil {
+				return w.viol("iter.seq", "%s (constructor %d): Next returned a key without a value at element %d", what, st.N%8, i)
+			}
+			if md == 2 {
+				seq = append(seq, v)
+			} else {
+				seq = append(seq, k)
+			}
+			modes = append(modes, md)
+			if md == 0 {
+				vals = append(vals, v)
+			}
+			if len(seq) > len(order)+1 {
+				return w.viol("iter.count", "%s (constructor %d) yields more than %d elements", what, st.N%8, len(order))
+			}
 		}
+		if err != nil {
+			return w.viol("iter.error", "%s failed: %v", what, err)
+		}
+		if k, v, e := it.Next(); e != nil || k != nil || v != nil {
+			return w.viol("iter.count", "%s (constructor %d): Next after the end returned (%v, %v, %v)", what, st.N%8, k, v, e)
+		}
+		if loaded {
+			// partially loaded: an in-order subsequence by key is all that can be said; with mixed accessors
+			// only the elements read with a key-bearing accessor are compared
+			var ks []atree.Value
+			for i, md := range modes {
+				if md != 2 {
+					ks = append(ks, seq[i])
+				}
+			}
+			return w.expectSubsequence(what+" keys", ks, wantK)
+		}
+		if len(seq) != len(order) {
+			return w.viol("iter.count", "%s (constructor %d) yields %d elements, want %d", what, st.N%8, len(seq), len(order))
+		}
+		vi := 0
+		for i, md := range modes {
+			wantX := wantK[i]
+			if md == 2 {
+				wantX = wantV[i]
+			}
+			if mmx := w.cmpValue(w.Storage, seq[i], wantX, cmpOpts{}, fmt.Sprintf("%s (constructor %d, accessor %d) element %d", what, st.N%8, md, i)); mmx != nil {
+				return w.viol("iter.seq", "%s", mmx.msg)
+			}
+			if md == 0 {
+				if mmx := w.cmpValue(w.Storage, vals[vi], wantV[i], cmpOpts{}, fmt.Sprintf("%s (constructor %d) value of element %d", what, st.N%8, i)); mmx != nil {
+					return w.viol("iter.seq", "%s", mmx.msg)
+				}
+				vi++
+			}
+		}
+		w.result("iter %s/%d %d", st.Sub, st.N%8, len(order))
+		return nil
 	default:
 		return nil
 	}
